@@ -17,7 +17,7 @@ META = {
     "assumptions": ["for generated programs only the multiset clause is asserted (the statement promises order/schedule only for library circuits)"],
     "floors": {
         "quick": {"flatten_calls": 2500, "second_flatten_checks": 2500, "library_flatten_checks": 50, "leaves_compared": 30000, "deep_flatten_depth": 1300},
-        "thorough": {"flatten_calls": 30000, "second_flatten_checks": 30000, "library_flatten_checks": 300},
+        "thorough": {"flatten_calls": 30000, "second_flatten_checks": 30000, "library_flatten_checks": 150},
     },
 }
 
